@@ -8,7 +8,8 @@
 (***************************************************************************)
 EXTENDS Findings, ExpTrace, Json, SequencesExt
 
-CONSTANTS ObsFile, VerdictFile
+CONSTANTS ObsFile, VerdictFile,
+          Preds        \* the predicates this run needs (the others are reported "na" without being evaluated)
 
 Observations == ndJsonDeserialize(ObsFile)
 
@@ -112,6 +113,7 @@ SumUnfold(o, tmIn, es, i) ==
   ELSE UnfoldSz(o, tmIn, es[i].a, {}, 40) + SumUnfold(o, tmIn, es, i + 1)
 
 PF(applies, holds) == IF ~applies THEN "na" ELSE IF holds THEN "pass" ELSE "fail"
+W(p, v) == IF p \in Preds THEN v ELSE "na"
 
 Verdict(o) ==
   LET tm   == TargetMap(o)
@@ -145,36 +147,36 @@ Verdict(o) ==
        wf      |-> wf,
        cyclic  |-> cyc # {},
        nkept   |-> Cardinality(KeptRefs(o)),
-       c02     |-> PF(ok /\ wf, c02bad = {}),
-       c03cut  |-> PF(ok /\ wf /\ full, offc = {}),
-       c03free |-> PF(ok /\ wf /\ full /\ cyc = {}, KeptRefs(o) = {}),
-       c03det  |-> PF(ok /\ wf /\ full /\ cyc = {}, o.det),
-       c03form |-> PF(ok /\ wf /\ full, badf = {}),
-       c04     |-> PF(TRUE, term),
-       c04work |-> PF(term /\ Len(o.nodes) <= 40, tr.ncirc <= 4 * unfold + 16),
-       conf    |-> PF(term, tr.ok),
+       c02     |-> W("c02", PF(ok /\ wf, c02bad = {})),
+       c03cut  |-> W("c03cut", PF(ok /\ wf /\ full, offc = {})),
+       c03free |-> W("c03free", PF(ok /\ wf /\ full /\ cyc = {}, KeptRefs(o) = {})),
+       c03det  |-> W("c03det", PF(ok /\ wf /\ full /\ cyc = {}, o.det)),
+       c03form |-> W("c03form", PF(ok /\ wf /\ full, badf = {})),
+       c04     |-> W("c04", PF(TRUE, term)),
+       c04work |-> W("c04work", PF(term /\ Len(o.nodes) <= 40, tr.ncirc <= 4 * unfold + 16)),
+       conf    |-> W("conf", PF(term, tr.ok)),
        confat  |-> tr.at,
        confwhy |-> tr.why,
-       c18step |-> PF(term, ~tr.refetch),
+       c18step |-> W("c18step", PF(term, ~tr.refetch)),
        ncirc   |-> tr.ncirc,
        unfold  |-> unfold,
-       c08noerr|-> PF(term /\ mfb = {}, ok),
-       c08err  |-> PF(term /\ ~o.opts.cont /\ mfb # {}, o.outcome = "error"),
-       c08contok |-> PF(term /\ o.opts.cont, ok),
-       c08contbisim |-> PF(ok /\ o.opts.cont /\ unf = {}, contbad = {}),
-       c08contcut |-> PF(ok /\ o.opts.cont /\ full, contcut = {}),
+       c08noerr|-> W("c08noerr", PF(term /\ mfb = {}, ok)),
+       c08err  |-> W("c08err", PF(term /\ ~o.opts.cont /\ mfb # {}, o.outcome = "error")),
+       c08contok |-> W("c08contok", PF(term /\ o.opts.cont, ok)),
+       c08contbisim |-> W("c08contbisim", PF(ok /\ o.opts.cont /\ unf = {}, contbad = {})),
+       c08contcut |-> W("c08contcut", PF(ok /\ o.opts.cont /\ full, contcut = {})),
        nbad    |-> Cardinality(mfb),
-       c09keep |-> PF(ok /\ wf /\ o.opts.skip, C09Bad(o, tmIn) = {}),
-       c09defs |-> PF(ok /\ o.opts.skip, o.defsame),
+       c09keep |-> W("c09keep", PF(ok /\ wf /\ o.opts.skip, C09Bad(o, tmIn) = {})),
+       c09defs |-> W("c09defs", PF(ok /\ o.opts.skip, o.defsame)),
        \* (the definitions section is left untouched, spelling included: only the other refs are judged)
-       c09form |-> PF(ok /\ wf /\ o.opts.skip,
-                      {k \in KeptRefs(o) : o.nodes[k].path[1] # "definitions" /\ ~FormOKRel(o, k)} = {}),
-       c09then |-> PF(ok /\ wf /\ o.entry = "SkipThenFull" /\ cyc = {}, o.samefull),
-       c10root |-> PF(term, o.rootsame),
-       c10opts |-> PF(term, o.optssame),
-       c18never|-> PF(term, CachedLoads(o) = {}),
-       c18once |-> PF(o.outcome \in {"ok", "error"}, DupLoads(o) = {}),
-       c18key  |-> PF(o.outcome \in {"ok", "error"}, FragLoads(o) = {}),
+       c09form |-> W("c09form", PF(ok /\ wf /\ o.opts.skip,
+                      {k \in KeptRefs(o) : o.nodes[k].path[1] # "definitions" /\ ~FormOKRel(o, k)} = {})),
+       c09then |-> W("c09then", PF(ok /\ wf /\ o.entry = "SkipThenFull" /\ cyc = {}, o.samefull)),
+       c10root |-> W("c10root", PF(term, o.rootsame)),
+       c10opts |-> W("c10opts", PF(term, o.optssame)),
+       c18never|-> W("c18never", PF(term, CachedLoads(o) = {})),
+       c18once |-> W("c18once", PF(o.outcome \in {"ok", "error"}, DupLoads(o) = {})),
+       c18key  |-> W("c18key", PF(o.outcome \in {"ok", "error"}, FragLoads(o) = {})),
        kf      |-> SetToSeq((IF KF_RebasePrefix(o, tmIn, cyc, live) THEN {"KF-REBASE-PREFIX"} ELSE {})
                             \cup (IF ChainMultiHop(o, tmIn, live) THEN {"KF-CHAIN-MULTIHOP"} ELSE {})
                             \cup (IF IdReldirOnCycle(o) THEN {"KF-ID-RELDIR-CYCLE"} ELSE {})),
